@@ -6,6 +6,7 @@ import (
 	"fmt"
 	"io"
 	"math"
+	"os"
 	"reflect"
 	"strconv"
 	"strings"
@@ -128,6 +129,36 @@ func jsonEqual(a, b interface{}) bool {
 	return reflect.DeepEqual(a, b)
 }
 
+// c16OnDisk writes a document to one scratch file of this process (overwritten every time) and returns its path.
+var c16Scratch string
+
+// at most c16DiskBudget documents per worker process take the trip over the disk (the first ones with a line break)
+var c16DiskDocs = 0
+
+const c16DiskBudget = 1500
+
+func c16OnDisk(doc string) string {
+	if c16Scratch == "" {
+		f, err := os.CreateTemp("", "verif-c16-*.json")
+		if err != nil {
+			return ""
+		}
+		c16Scratch = f.Name()
+		f.Close()
+	}
+	if err := os.WriteFile(c16Scratch, []byte(doc), 0o600); err != nil {
+		return ""
+	}
+	return c16Scratch
+}
+
+func c16Cleanup() {
+	if c16Scratch != "" {
+		os.Remove(c16Scratch)
+		c16Scratch = ""
+	}
+}
+
 type c16Case struct {
 	Doc       string   `json:"document"` // Go-quoted
 	Placement int      `json:"file_placement,omitempty"`
@@ -179,6 +210,44 @@ func c16Text(res *explore.Result, doc string, verdict c16Verdict, want interface
 		if (err == nil) != (err2 == nil) || (err != nil && err.Error() != err2.Error()) || (err == nil && !jsonEqual(val, val2)) {
 			res.Violate("second-evaluation-of-the-same-file-differs", fmt.Sprintf("document %s: first Evaluate: %#v, %v; second Evaluate on the same file: %#v, %v", q(doc), val, err, val2, err2), cs)
 			return
+		}
+		// and once more with the optional passes switched on (the example's own benchmark enables transformation):
+		// the grammar has no transformers or checkers that change anything, so value and error must be the same
+		var val3 interface{}
+		var err3 error
+		ctx3 := parsley.NewContext(fs, text.NewReader(c16File))
+		ctx3.EnableTransformation()
+		ctx3.EnableStaticCheck()
+		if pm := guard(func() { val3, err3 = parsley.Evaluate(ctx3, jsonRoot) }); pm != "" {
+			res.Violate("panic", fmt.Sprintf("document %s: Evaluate with transformation and static check enabled panicked: %s", q(doc), pm), cs)
+			return
+		}
+		if (err == nil) != (err3 == nil) || (err != nil && err.Error() != err3.Error()) || (err == nil && !jsonEqual(val, val3)) {
+			res.Violate("evaluation-with-optional-passes-differs", fmt.Sprintf("document %s: Evaluate: %#v, %v; with transformation and static check enabled: %#v, %v", q(doc), val, err, val3, err3), cs)
+			return
+		}
+		// documents with line breaks also from disk with Windows line endings (text.ReadFile, CRLF): same value
+		if err == nil && strings.Contains(doc, "\n") && !strings.Contains(doc, "\r") && c16Placement == 0 && c16DiskDocs < c16DiskBudget {
+			c16DiskDocs++
+			if path := c16OnDisk(strings.ReplaceAll(doc, "\n", "\r\n")); path != "" {
+				var val4 interface{}
+				var err4 error
+				if pm := guard(func() {
+					f4, rerr := text.ReadFile(path)
+					if rerr != nil {
+						panic("C16 harness: " + rerr.Error())
+					}
+					val4, err4 = parsley.Evaluate(parsley.NewContext(parsley.NewFileSet(f4), text.NewReader(f4)), jsonRoot)
+				}); pm != "" {
+					res.Violate("panic", fmt.Sprintf("document %s read from disk with CRLF line endings: %s", q(doc), pm), cs)
+					return
+				}
+				if err4 != nil || !jsonEqual(val, val4) {
+					res.Violate("crlf-file-from-disk-differs", fmt.Sprintf("document %s: value %#v; the same document with CRLF line endings loaded with text.ReadFile: %#v, %v", q(doc), val, val4, err4), cs)
+					return
+				}
+				res.Add("crlf_documents_from_disk", 1)
+			}
 		}
 	}
 	if val != nil && err != nil {
@@ -488,6 +557,7 @@ func c16MaxLen(tier string) int {
 }
 
 func c16Run(env *explore.Env) *explore.Result {
+	defer c16Cleanup()
 	res := explore.NewResult()
 	maxLen := c16MaxLen(env.Tier)
 	var idx int64
@@ -549,6 +619,7 @@ func c16Run(env *explore.Env) *explore.Result {
 }
 
 func c16Replay(raw stdjson.RawMessage) *explore.Result {
+	defer c16Cleanup()
 	res := explore.NewResult()
 	var c c16Case
 	if err := stdjson.Unmarshal(raw, &c); err != nil {
